@@ -388,10 +388,15 @@ fn bits(v: &[f64]) -> Vec<u64> {
 }
 
 fn cones_coq(cones: &[SupportedConeT<f64>]) -> String {
-    // (kind, dim): 0 zero, 1 nonnegative, 2 second-order, 9 other (not checked exactly)
-    let items: Vec<String> = cones.iter().map(|c| {
-        let k = match c { ZeroConeT(_) => 0, NonnegativeConeT(_) => 1, SecondOrderConeT(_) => 2, _ => 9 };
-        format!("({}, {})", cn(k), cn(cone_dim(c)))
+    // the cone list as Term/Eval.v's [coneD] (exponents as exact dyadics)
+    let items: Vec<String> = cones.iter().map(|c| match c {
+        ZeroConeT(d) => format!("KZero {}", cn(*d)),
+        NonnegativeConeT(d) => format!("KNN {}", cn(*d)),
+        SecondOrderConeT(d) => format!("KSOC {}", cn(*d)),
+        ExponentialConeT() => "KExp".to_string(),
+        PowerConeT(a) => format!("KPow {}", cdy(*a)),
+        GenPowerConeT(a, d2) => format!("KGenPow {} {}", cdylist(a), cn(*d2)),
+        PSDTriangleConeT(d) => format!("KPSD {}", cn(*d)),
     }).collect();
     format!("[{}]", items.join("; "))
 }
@@ -648,7 +653,7 @@ fn main() {
                         }
                     }
                 }
-                // C07: interior snapshots (exact for zero / nonnegative / second-order cones)
+                // C07: interior snapshots (every cone kind: Solver/InteriorAll.v)
                 let mut nsnap = 0;
                 for e in o.events.iter() {
                     if let Event::Vars { s, z, tau, kappa, .. } = e {
@@ -661,7 +666,7 @@ fn main() {
                         // "on the boundary" (a unit shift is absorbed by entries of size 1e50)
                         if s.len() == p.b.len() && o.removed.unwrap_or(0) == 0 && !p.label.contains("scaled by") {
                             sink.case("interior", json!({"label": p.label, "snapshot": nsnap, "tau": tau, "kappa": kappa}),
-                                format!("(c_interior {} {} {} {} {})", cones_coq(&p.cones), cdylist(s), cdylist(z), cdy(*tau), cdy(*kappa)),
+                                format!("(c_interior_all {} {} {} {} {})", cones_coq(&p.cones), cdylist(s), cdylist(z), cdy(*tau), cdy(*kappa)),
                                 &["C07"]);
                         }
                     }
@@ -744,7 +749,7 @@ fn main() {
                         if nsnap > 12 { break; }
                         if s.len() == p.b.len() && removed == 0 {
                             sink.case("interior", json!({"label": p.label, "settings": cfg.json(), "problem": p.to_json(), "resolve": true, "snapshot": nsnap, "tau": tau, "kappa": kappa}),
-                                format!("(c_interior {} {} {} {} {})", cones_coq(&p.cones), cdylist(s), cdylist(z), cdy(*tau), cdy(*kappa)),
+                                format!("(c_interior_all {} {} {} {} {})", cones_coq(&p.cones), cdylist(s), cdylist(z), cdy(*tau), cdy(*kappa)),
                                 &["C07"]);
                         }
                     }
